@@ -214,10 +214,48 @@ func safeProp[C any](prop func(C, *Ctx) *Violation, c C, x *Ctx) (v *Violation) 
 				return
 			}
 			st := string(debug.Stack())
+			if panicInHarness(st) {
+				// raised by harness code itself (an oracle bug, a harness file operation, a method of a harness fake that
+				// the library has grown since): says nothing about the code under test
+				x.discard = "infra: panic in harness code: " + fmt.Sprint(r) + " at " + harnessFrame(st)
+				v = nil
+				return
+			}
 			v = &Violation{Fingerprint: "panic/" + panicSite(st), Msg: fmt.Sprintf("panic: %v\n%s", r, st)}
 		}
 	}()
 	return prop(c, x)
+}
+
+// panicInHarness: the function that panicked (first frame below the runtime's panic machinery) belongs to the harness.
+func panicInHarness(stack string) bool {
+	return strings.HasPrefix(harnessFrame(stack), "verif/")
+}
+
+// harnessFrame returns the first function frame after the last "panic(" / runtime frame block at the top of the stack.
+func harnessFrame(stack string) string {
+	lines := strings.Split(stack, "\n")
+	seenPanic := false
+	for _, ln := range lines {
+		if strings.HasPrefix(ln, "\t") || strings.HasPrefix(ln, "goroutine ") || ln == "" {
+			continue
+		}
+		if strings.HasPrefix(ln, "panic(") {
+			seenPanic = true
+			continue
+		}
+		if !seenPanic {
+			continue // debug.Stack, the deferred recover function
+		}
+		if strings.HasPrefix(ln, "runtime.") || strings.HasPrefix(ln, "runtime/") {
+			continue // sigpanic, panicmem, goPanicIndex ...
+		}
+		if i := strings.LastIndex(ln, "("); i > 0 {
+			ln = ln[:i]
+		}
+		return ln
+	}
+	return ""
 }
 
 // panicSite extracts the first go-sstables frame of a stack for a stable fingerprint.
